@@ -1627,7 +1627,7 @@ impl<T> MiniVec<T> {
       return Err(LayoutErr::AlignmentTooSmall);
     }
 
-    if alignment % 2 > 0 {
+    if !alignment.is_power_of_two() {
       return Err(LayoutErr::AlignmentNotDivisibleByTwo);
     }
 
